@@ -54,6 +54,7 @@ var (
 	profP6  = profile{name: "P6-newline-pattern-letter", m: map[rune]rune{'b': '\n'}, input: []rune{'a', 'b', 'c'}}
 	profP4  = profile{name: "P4-invalid-byte-0xFF", m: map[rune]rune{'c': 0xE000}, input: []rune{'a', 'b', 'c'}, enc: map[rune]string{0xE000: "\xff"}}
 	profP5  = profile{name: "P5-truncated-E2-82", m: map[rune]rune{'c': 0xE000}, input: []rune{'a', 'b', 'c'}, enc: map[rune]string{0xE000: "\xe2\x82"}}
+	profP34 = profile{name: "P34-U+FFFD-pattern-letter+0xFF-input", m: map[rune]rune{'b': 0xFFFD, 'c': 0xE000}, input: []rune{'a', 'b', 'c'}, enc: map[rune]string{0xE000: "\xff"}}
 	profP45 = profile{name: "P45-é+0xFF", m: map[rune]rune{'a': 'é', 'c': 0xE000}, input: []rune{'a', 'b', 'c'}, enc: map[rune]string{0xE000: "\xff"}}
 	profGk  = profile{name: "P7-greek-mixedcase", m: map[rune]rune{'a': 'δ', 'B': 'Δ', 'b': 'ж'}, input: []rune{'a', 'B', 'b'}}
 )
